@@ -445,3 +445,48 @@ func returnsFresh(cal *ssa.Function, idx int) bool {
 	})
 	return ok && n > 0
 }
+
+// LockOp exposes lockOp: the mutex (field and rendered base) and the operation of a sync.(RW)Mutex call.
+func LockOp(cc *ssa.CallCommon) (LockID, string, bool) { return lockOp(cc) }
+
+// HeldAtReturn lists, for every returning acyclic path of fn, the locks that were acquired on the path and are still held when
+// the function returns (explicit unlocks and the deferred unlocks whose defer statement the path executed are taken into
+// account). The result maps a description of the lock to the conditions of one such path.
+func HeldAtReturn(fn *ssa.Function) map[string]string {
+	out := map[string]string{}
+	paths, _ := EnumPaths(fn, 4096)
+	for _, p := range paths {
+		if p.Return == nil {
+			continue
+		}
+		held := map[LockID]bool{}
+		deferred := map[LockID]bool{}
+		for _, in := range p.InstrSeq() {
+			switch x := in.(type) {
+			case *ssa.Call:
+				if id, op, ok := lockOp(&x.Call); ok {
+					switch op {
+					case "Lock", "RLock":
+						held[id] = true
+					default:
+						delete(held, id)
+					}
+				}
+			case *ssa.Defer:
+				if id, op, ok := lockOp(&x.Call); ok && (op == "Unlock" || op == "RUnlock") {
+					deferred[id] = true
+				}
+			case *ssa.RunDefers:
+				for id := range deferred {
+					delete(held, id)
+				}
+			}
+		}
+		for id := range held {
+			if _, dup := out[id.String()]; !dup {
+				out[id.String()] = p.CondString()
+			}
+		}
+	}
+	return out
+}
